@@ -232,8 +232,14 @@ func thriftUnmarshal(name string, b []byte, mk func() any) call {
 }
 
 var (
-	valA = func() any { return jA{X: 1, Next: &jA{X: 2, S: "in\"ner"}, S: "outer"} }
-	valB = func() any { return jB{M: map[string]int{"b": 2, "a": 1, "c": 3}, L: []jA{{X: 7}}, F: 1.5} }
+	valA      = func() any { return jA{X: 1, Next: &jA{X: 2, S: "in\"ner"}, S: "outer"} }
+	valB      = func() any { return jB{M: map[string]int{"b": 2, "a": 1, "c": 3}, L: []jA{{X: 7}}, F: 1.5} }
+	valRawMap = func() any {
+		return map[string]stdjson.RawMessage{"b": stdjson.RawMessage(`{"x":1}`), "a": stdjson.RawMessage(`[1,2]`)}
+	}
+	valNestedMaps = func() any {
+		return map[string]any{"o": map[string]any{"i": map[string]string{"k": "v"}}, "r": map[string]stdjson.RawMessage{"z": stdjson.RawMessage("1")}}
+	}
 	valC = func() any {
 		return jC{Name: "c", Any: map[string]any{"z": 1, "y": []any{"s", nil}, "x": map[string]any{"k": true}}}
 	}
@@ -393,6 +399,15 @@ func drivers() []driver {
 			}
 		}, 3, 4, func() []call {
 			return []call{protoUnmarshal("N", mustProtoOnce(), func() any { return new(pN) })}
+		}},
+		{"json-map-pools-warm", func() [][]call {
+			return [][]call{
+				{jsonMarshal("map[string]RawMessage", valRawMap), jsonMarshal("nested maps", valNestedMaps)},
+				{jsonMarshal("nested maps", valNestedMaps)},
+				{jsonMarshal("C", valC), jsonMarshal("map[string]RawMessage", valRawMap)},
+			}
+		}, 2, 3, func() []call {
+			return []call{jsonMarshal("map[string]RawMessage", valRawMap), jsonMarshal("nested maps", valNestedMaps)}
 		}},
 		{"mixed", func() [][]call {
 			return [][]call{
